@@ -71,6 +71,8 @@ def binop(I, op, a, b):
     if o is None:
         raise Unsupported(f"operator {type(op).__name__}")
     ctx = I.ctx
+    if isinstance(a, Opaque) and isinstance(b, Opaque) and a.kind == "datetime" and b.kind == "datetime" and o == "-":
+        return Opaque("timedelta", z3.simplify(a.t - b.t))
     if not _sym(a) and not _sym(b):
         if isinstance(a, (Obj, Opaque, SStream)) or isinstance(b, (Obj, Opaque, SStream)):
             if isinstance(a, Opaque) and a.kind == "str" or isinstance(b, Opaque) and b.kind == "str":
@@ -154,6 +156,12 @@ def binop(I, op, a, b):
         if isinstance(a, int) and a > 2 and a & (a - 1) == 0:
             return wrap_int(pow2(I, z3.simplify(y * (a.bit_length() - 1))))
         raise Unsupported("** with symbolic exponent")
+    if o in ("<<", ">>") and not z3.is_int_value(y):
+        v = ctx.value_if_determined(y)
+        if v is not None:
+            y = z3.IntVal(v)
+            if v < 0:
+                raise_py(ValueError, "negative shift count")
     if o == "<<":
         if not ctx.entails(y >= 0):
             I.safety("shift_neg", wrap_bool(y >= 0), ValueError)
@@ -194,9 +202,38 @@ def binop(I, op, a, b):
     raise Unsupported(f"operator {o}")
 
 
+def _and_const(x, m):
+    """x & m for a constant m >= 0 and any integer term x: sum over the runs of one-bits of m
+    of ((x div 2^b) mod 2^a) * 2^b  (exact for negative x too: floor semantics)"""
+    terms = []
+    b = 0
+    while m >> b:
+        if (m >> b) & 1:
+            a = 0
+            while (m >> (b + a)) & 1:
+                a += 1
+            t = x / z3.IntVal(2 ** b) if b else x
+            t = t % z3.IntVal(2 ** a)
+            terms.append(t * z3.IntVal(2 ** b) if b else t)
+            b += a
+        else:
+            b += 1
+    return z3.Sum(terms) if terms else z3.IntVal(0)
+
+
 def _bitwise_int(I, o, a, b):
     """general & | ^ on integers: needs known bit widths (declared via bounds in pc)"""
     ctx = I.ctx
+    for u, v in ((a, b), (b, a)):
+        if isinstance(v, int) and not isinstance(v, bool) and v >= 0 and not isinstance(u, int):
+            x = zi(u)
+            am = _and_const(x, v)
+            if o == "&":
+                return wrap_int(am)
+            if o == "|":
+                return wrap_int(x + v - am)
+            if o == "^":
+                return wrap_int(x + v - 2 * am)
     ws = []
     for v in (a, b):
         if isinstance(v, int):
@@ -352,6 +389,8 @@ def contains(I, container, x):
         if container.step == 1:
             return wrap_bool(z3.And(t >= container.start, t < container.stop))
         return wrap_bool(z3.Or(*[t == v for v in container])) if len(container) <= 64 else _unsup("range membership")
+    if isinstance(container, types.MappingProxyType):
+        container = dict(container)
     if isinstance(container, dict):
         if _sym(x):
             disj = []
@@ -430,6 +469,8 @@ def _slice_bounds(I, s, n):
         t = zi(v)
         nz = zint(n)
         if isinstance(v, int):
+            if v >= 0 and I.ctx.entails(nz >= v):
+                return v
             t = t if v >= 0 else z3.If(t + nz < 0, 0, t + nz)
             if v >= 0:
                 return z3.simplify(z3.If(t > nz, nz, t))
@@ -544,6 +585,9 @@ def sub_bytes(I, sb, lo, hi):
         if ok:
             return norm_bytes(SBytes(out))
     lo_t, hi_t = zint(lo), zint(hi)
+    seg = _segment_slice(I, sb, lo_t, hi_t)
+    if seg is not None:
+        return seg
     hi_t = z3.If(hi_t < lo_t, lo_t, hi_t)
     if len(sb.segs) == 1 and isinstance(sb.segs[0], SL):
         s = sb.segs[0]
@@ -566,6 +610,66 @@ def sub_bytes(I, sb, lo, hi):
             return norm_bytes(SBytes((SL(s.arr, s.lo + (lo - off), s.lo + (hi_t - off)),)))
     arr, _ = reify(sb)
     return norm_bytes(SBytes((SL(arr, lo_t, hi_t),)))
+
+
+def _segment_slice(I, sb, lo, hi):
+    """sb[lo:hi] when both bounds fall on (or at a concrete distance inside) segment
+    boundaries whose offsets are syntactically comparable; None otherwise"""
+    offs = [z3.IntVal(0)]
+    for s in sb.segs:
+        offs.append(z3.simplify(offs[-1] + zint(s.length())))
+
+    def locate(t, is_hi):
+        best = None
+        for i, s in enumerate(sb.segs):
+            d = z3.simplify(t - offs[i])
+            if not z3.is_int_value(d):
+                continue
+            d = d.as_long()
+            ln = s.length()
+            if d < 0:
+                continue
+            if isinstance(ln, int):
+                if d < ln or (is_hi and d == ln):
+                    best = (i, d)
+            elif d == 0:
+                best = (i, 0)
+        if best is None:
+            d = z3.simplify(t - offs[-1])
+            if z3.is_int_value(d) and d.as_long() == 0:
+                best = (len(sb.segs), 0)
+        return best
+    a = locate(lo, False)
+    b = locate(hi, True)
+    if a is None:
+        d = z3.simplify(lo - offs[-1])
+        if z3.is_int_value(d) and d.as_long() == 0:
+            a = (len(sb.segs), 0)
+    if a is None or b is None:
+        return None
+    (i, da), (j, db) = a, b
+    if (j, db) < (i, da):
+        return b""
+    out = []
+    for k in range(i, min(j + 1, len(sb.segs))):
+        s = sb.segs[k]
+        ln = s.length()
+        start = da if k == i else 0
+        if k == j:
+            end = db
+            if end == 0:
+                break
+        else:
+            end = ln
+        if isinstance(ln, int):
+            if start < end:
+                out.append(_sub_seg(I, s, start, end))
+        else:
+            # symbolic-length segment: only whole (start == 0 and k < j)
+            if start != 0 or k == j:
+                return None
+            out.append(s)
+    return norm_bytes(SBytes(out))
 
 
 def _sub_seg(I, s, a, b):
@@ -797,7 +901,19 @@ def del_item(I, base, key, snode, fr):
 
 # ------------------------------------------------------------------ attributes
 def get_attr(I, base, name):
-    from .interp import BoundMethod, FuncRef
+    from .interp import BoundMethod, FuncRef, SuperRef
+    if isinstance(base, SuperRef):
+        for b in base.cls.bases(I.world):
+            m = b.methods.get(name)
+            if m is not None:
+                if m.kind == "classmethod":
+                    return FuncRef(m, base.obj if isinstance(base.obj, ClassInfo) else base.obj.cls, True)
+                return FuncRef(m, base.obj, True)
+        if name == "__eq__":
+            return BoundMethod(base, "__eq__")
+        if name in ("__init__", "__post_init__", "__init_subclass__"):
+            return BoundMethod(base, "__noop__")
+        raise Unsupported(f"super().{name} not found in /repo bases")
     if isinstance(base, Obj):
         if name in base.fields:
             return base.fields[name]
@@ -886,6 +1002,8 @@ def wrap_live_instance(I, v):
     """a live value met through a module global or attribute"""
     if isinstance(v, (int, str, bytes, float, type(None), tuple, frozenset, range, complex)):
         return v
+    if isinstance(v, types.MappingProxyType):
+        return dict(v)
     if isinstance(v, (list, dict, set, bytearray)):
         return v        # module-level tables: read-only by convention (frame checked by C20)
     if isinstance(v, types.ModuleType):
